@@ -585,6 +585,53 @@ where
     }
 }
 
+/// Read-only access to private items for the verification harness.
+#[cfg(coupe_verif)]
+pub mod verif {
+    use crate::Point2D;
+    use crate::Point3D;
+
+    pub fn encode_2d(x: u64, y: u64, order: usize) -> u64 {
+        super::encode_2d(x, y, order)
+    }
+
+    pub fn encode_2d_slow(zorder: u64, order: usize, config: usize) -> (u64, usize) {
+        super::encode_2d_slow(zorder, order, config)
+    }
+
+    pub fn encode_3d(x: u64, y: u64, z: u64, order: usize) -> u64 {
+        super::encode_3d(x, y, z, order)
+    }
+
+    pub fn pdep_u64(src: u64, mask: u64) -> u64 {
+        super::pdep_u64(src, mask)
+    }
+
+    pub fn pdep_u64_fallback(src: u64, mask: u64) -> u64 {
+        super::pdep_u64_fallback(src, mask)
+    }
+
+    /// `segment_to_segment(min, max, order)` applied to each of `values`.
+    pub fn segment_to_segment(min: f64, max: f64, order: usize, values: &[f64]) -> Vec<u64> {
+        let f = super::segment_to_segment(min, max, order);
+        values.iter().map(|v| f(*v)).collect()
+    }
+
+    pub fn indices_2d(points: &[Point2D], order: usize) -> Vec<u64> {
+        let f = super::index_fn_2d(points, order);
+        points.iter().map(f).collect()
+    }
+
+    pub fn indices_3d(points: &[Point3D], order: usize) -> Vec<u64> {
+        let f = super::index_fn_3d(points, order);
+        points.iter().map(f).collect()
+    }
+
+    pub fn weighted_quantiles(points: &[u64], weights: &[f64], n: usize) -> Vec<u64> {
+        super::weighted_quantiles(points, weights, n)
+    }
+}
+
 #[cfg(test)]
 mod tests {
     use super::*;
